@@ -87,7 +87,19 @@ def shards(tier):
     for pc in range(len(PARSER_CFGS)):
         for first in range(len(IMG_IDS)):
             out.append({'kind': 'parallel', 'cfg': pc, 'first': first})
+    out.append({'kind': 'import'})
     return out
+
+
+# documents of a foreign tool: lines without stored heights (the loader derives them from the outline); X: 12 baseline points and an outline
+# whose height grows along the line, Y: two such lines, Z: a short baseline
+IMPORT_DOCS = {
+    'X': [([[10 + 8 * k, 50 + (k % 3)] for k in range(12)], [[10, 45], [98, 20], [98, 70], [10, 55]])],
+    'Y': [([[5 + 6 * k, 30] for k in range(15)], [[5, 28], [90, 10], [90, 40], [5, 33]]),
+          ([[5 + 7 * k, 80 - k] for k in range(11)], [[5, 70], [80, 40], [80, 90], [5, 85]])],
+    'Z': [([[10, 50], [60, 50]], [[10, 40], [60, 30], [60, 60], [10, 55]])],
+}
+IMPORT_IDS = sorted(IMPORT_DOCS)
 
 
 def run_shard(shard, ctx, tier):
@@ -112,6 +124,12 @@ def run_shard(shard, ctx, tier):
             batch = [shard['first']] + list(rest)
             for assign in itertools.product((0, 1), repeat=3):
                 guarded_check(mod, {'parallel': shard['cfg'], 'batch': batch, 'assign': list(assign)}, ctx)
+    elif shard['kind'] == 'import':
+        n = len(IMPORT_IDS)
+        for L in range(1, 4):
+            for h in itertools.product(range(n), repeat=L):
+                for ver in (0, 1):
+                    guarded_check(mod, {'import': list(h), 'ver': ver}, ctx)
     else:
         guarded_check(mod, {'smoke': True}, ctx)
 
@@ -315,7 +333,53 @@ def check_smoke(case, ctx):
     ctx.nontrivial(('smoke',), 'real-multiprocess-run')
 
 
+_IMPORT_XML = {}
+
+
+def import_xml(doc, ver):
+    from pero_ocr.core.layout import PageLayout, RegionLayout, TextLine, PAGEVersion
+    key = (doc, ver)
+    if key not in _IMPORT_XML:
+        page = PageLayout(id=doc, page_size=(100, 120))
+        reg = RegionLayout('r1', np.asarray([[0, 0], [120, 0], [120, 100], [0, 100]], dtype=float))
+        for k, (bl, poly) in enumerate(IMPORT_DOCS[doc]):
+            reg.lines.append(TextLine(id=f'l{k}', baseline=np.asarray(bl, dtype=float), polygon=np.asarray(poly, dtype=float), heights=None))
+        page.regions.append(reg)
+        _IMPORT_XML[key] = page.to_pagexml_string(version=[PAGEVersion.PAGE_2019_07_15, PAGEVersion.PAGE_2013_07_15][ver])
+    return _IMPORT_XML[key]
+
+
+def check_import(case, ctx):
+    """loading a page is part of processing it: the line heights the loader derives for lines that carry none (they decide the crop, hence
+    the transcription) must not depend on how many documents were loaded before"""
+    from pero_ocr.core.layout import PageLayout
+    hist = [IMPORT_IDS[i] for i in case['import']]
+    ver = case['ver']
+    ctx.reseed()
+    got = None
+    for doc in hist:
+        p = PageLayout()
+        p.from_pagexml_string(import_xml(doc, ver))
+        got = [None if l.heights is None else [float(x) for x in l.heights] for l in p.lines_iterator()]
+    np.random.seed(424242)
+    q = PageLayout()
+    q.from_pagexml_string(import_xml(hist[-1], ver))
+    ref = [None if l.heights is None else [float(x) for x in l.heights] for l in q.lines_iterator()]
+    ctx.executed(len(hist) + 1)
+    ctx.state(('import', tuple(hist), ver))
+    if any(g is None or r is None or len(g) != 2 or max(abs(a - b) for a, b in zip(g, r)) > 1e-6 for g, r in zip(got, ref)) or len(got) != len(ref):
+        ctx.violation('result-independent-of-history', f'{ID}/import/derived-line-heights-depend-on-history',
+                      f'documents {hist} loaded in turn (lines without stored heights): the last one gets heights {got}; loaded on its own '
+                      f'(other random state) it gets {ref}')
+        return
+    ctx.outcome(('import', tuple(round(x, 3) for h in ref for x in h)))
+    if len(hist) > 1:
+        ctx.nontrivial(('import', tuple(hist), ver), 'import-after-other-imports')
+
+
 def check_case(case, ctx):
+    if 'import' in case:
+        return check_import(case, ctx)
     if 'dec' in case:
         check_dec(case, ctx)
     elif 'parser' in case:
@@ -339,6 +403,6 @@ def describe(tier):
         'assumptions': ['a Pool worker is a fork-time copy that shares nothing with the others (modelled by deepcopy)',
                         'counters lines_examined / lines_decoded / seconds_decoding only feed decoding_summary()'],
         'min_nontrivial': 50,
-        'required_tags': ['predecessor-left-lm-context', 'same-page-twice', 'parser-history-with-predecessor', 'both-workers-used',
+        'required_tags': ['import-after-other-imports', 'predecessor-left-lm-context', 'same-page-twice', 'parser-history-with-predecessor', 'both-workers-used',
                           'real-multiprocess-run'],
     }
